@@ -11,6 +11,16 @@ use std::task::{Context, Poll, Wake, Waker};
 thread_local! {
     static DEFERRED: RefCell<Vec<Waker>> = const { RefCell::new(Vec::new()) };
     static POLLS: RefCell<u64> = const { RefCell::new(0) };
+    static CALL_EPOCH: RefCell<u64> = const { RefCell::new(0) };
+}
+
+/// Every call into the system under test starts a new epoch; streams use it to give each API
+/// call its own operation budget.
+pub fn new_call_epoch() {
+    CALL_EPOCH.with(|e| *e.borrow_mut() += 1);
+}
+pub fn call_epoch() -> u64 {
+    CALL_EPOCH.with(|e| *e.borrow())
 }
 
 /// A stream registers a wake-up that the executor delivers after the future returned `Pending`.
